@@ -62,6 +62,17 @@ let rd_repl toks =
   { rm_epoch = e; rm_flags = f; rm_masters = ms; rm_replicas = rs }
 let rd_task toks = let c = tokv toks in let sr = rd_sr toks in { tm_cluster = c; tm_sr = sr }
 let rd_switch toks = let v = tokv toks in let t = rd_task toks in { sa_version = v; sa_meta = t }
+let rd_cproxy toks =
+  let name = (match next toks with "~" -> None | h -> Some (unhex h)) in
+  let epoch = num toks in
+  let n = cnt toks in
+  let nodes = times n (fun () ->
+      let a = tokv toks in let role = next toks in let k = cnt toks in
+      let srs = times k (fun () -> rd_sr toks) in
+      let np = cnt toks in let ps = times np (fun () -> let x = tokv toks in let y = tokv toks in (x, y)) in
+      { cn_addr = a; cn_master = (role = "m"); cn_slots = srs; cn_repl_peers = ps }) in
+  let peers = rd_nm toks in let cfg = rd_cfg toks in
+  { cp_name = name; cp_epoch = epoch; cp_nodes = nodes; cp_peers = peers; cp_config = cfg }
 let rd_toks toks = let l = List.map unhex !toks in toks := []; l
 
 (* printers *)
@@ -146,6 +157,15 @@ let run_case (line : string) : string =
   | "pcm_zrt" ->
     let m = rd_pcm toks in
     guard (ok_pcm m) (fun () -> pr_res (fun (m, ext) -> pr_pcm m ^ " ext=" ^ b01 ext) (parse_pcm unpack (pcm_to_compressed_args pack m)))
+  | "coord_send" ->
+    let compress = (cnt toks = 1) in
+    let p = rd_cproxy toks in
+    let r = coord_repl p in let c = coord_pcm compress p in
+    guard (ok_repl r && ok_pcm c) (fun () ->
+        "repl " ^ pr_res pr_repl (parse_repl (encode_repl r)) ^ " | cluster "
+        ^ pr_res (fun (m, ext) -> pr_pcm m ^ " ext=" ^ b01 ext)
+            (parse_pcm unpack (if compress then pcm_to_compressed_args pack c else pcm_to_args all_cfields c)))
+  | "coord_infomgr" -> pr_res pr_task (task_of_string (tokv toks))
   | "repl_enc" -> let m = rd_repl toks in guard (ok_repl m) (fun () -> pr_toks (encode_repl m))
   | "repl_dec" -> pr_res pr_repl (parse_repl (rd_toks toks))
   (* values of the model's predicates (model side only) *)
